@@ -29,6 +29,33 @@ theorem udiv_qrnnd_preinv_spec (nh nl d di : Nat) (h1 : B / 2 ≤ d) (h2 : d < B
 
 example : udiv_qrnnd_preinv (B / 2) (B - 1) (B / 2 + 1) (invert_limb (B / 2 + 1)) = (B - 1, B / 2) := by decide
 
+/-- mpir_invert_pi1 / invert_pi1 (gmp-impl.h:2831): for every normalised d1 and every d0 the macro
+    returns the 3/2 reciprocal ⌊(B³−1)/(d1·B+d0)⌋ − B (all three adjustment branches covered). -/
+theorem invert_pi1_spec (d1 d0 : Nat) (hnorm : B / 2 ≤ d1) (hd1 : d1 < B) (hd0 : d0 < B) :
+    invert_pi1 d1 d0 = (B * B * B - 1) / (d1 * B + d0) - B :=
+  invert_pi1_eq d1 d0 hnorm hd1 hd0
+
+example : invert_pi1 (B / 2) 0 = B - 1 := by decide
+example : invert_pi1 (B - 1) (B - 1) = 0 := by decide
+
+/-- udiv_qr_3by2 (gmp-impl.h:2871): for all 64-bit words with d1 normalised, ⟨n2,n1⟩ < ⟨d1,d0⟩ and
+    dinv = invert_pi1 d1 d0, q and ⟨r1,r0⟩ are the exact Euclidean quotient and remainder of
+    n2·B²+n1·B+n0 by d1·B+d0 — including the second correction that random data reaches with
+    probability ≈ 2^-64. -/
+theorem udiv_qr_3by2_spec (n2 n1 n0 d1 d0 dinv : Nat) (hn2 : n2 < B) (hn1 : n1 < B) (hn0 : n0 < B)
+    (hd1 : d1 < B) (hd0 : d0 < B) (hnorm : B / 2 ≤ d1) (hN : n2 * B + n1 < d1 * B + d0)
+    (hdinv : dinv = invert_pi1 d1 d0) :
+    udiv_qr_3by2 n2 n1 n0 d1 d0 dinv =
+      ((n2 * B * B + n1 * B + n0) / (d1 * B + d0),
+       ((n2 * B * B + n1 * B + n0) % (d1 * B + d0)) / B,
+       ((n2 * B * B + n1 * B + n0) % (d1 * B + d0)) % B) :=
+  udiv_qr_3by2_eq n2 n1 n0 d1 d0 dinv hn2 hn1 hn0 hd1 hd0 hnorm hN
+    (by rw [hdinv]; exact invert_pi1_eq d1 d0 hnorm hd1 hd0)
+
+-- non-vacuity: an input on which the second correction fires (found by the generator's search)
+example : udiv_qr_3by2 0x800000000000002a 0xffffffffffffffa8 0xffffffffffffffff 0x800000000000002c 1
+    (invert_pi1 0x800000000000002c 1) = (0xfffffffffffffffe, 0, 1) := by decide
+
 /-- modlimb_invert (gmp-impl.h:3087): for every odd n the result is the inverse of n modulo B.
     The 128 table entries are checked by the kernel; each Newton step doubles the precision. -/
 theorem modlimb_invert_spec (n : Nat) (hodd : n % 2 = 1) : n * modlimb_invert n % B = 1 :=
